@@ -132,10 +132,11 @@ pub fn render(body: &Value, salt: usize) -> String {
             let vs: Vec<String> = ms.iter().enumerate().map(|(j, v)| {
                 let attr = if v["bad"] == true { "".to_string() } else { format!("#[f(need = \"v{}\")] ", j) };
                 let fs = v["fs"].as_array().unwrap();
+                let disc = if v["disc"] == true { format!(" = {}", 3 + j) } else { String::new() };
                 let body = match v["style"].as_str().unwrap() {
-                    "unit" => if v["disc"] == true { format!(" = {}", 3 + j) } else { String::new() },
-                    "named" => format!(" {{ {} }}", fs.iter().enumerate().map(|(k, f)| field_src(f, k, true, salt + j)).collect::<Vec<_>>().join(", ")),
-                    _ => format!("({})", fs.iter().enumerate().map(|(k, f)| field_src(f, k, false, salt + j)).collect::<Vec<_>>().join(", ")),
+                    "unit" => disc,
+                    "named" => format!(" {{ {} }}{}", fs.iter().enumerate().map(|(k, f)| field_src(f, k, true, salt + j)).collect::<Vec<_>>().join(", "), disc),
+                    _ => format!("({}){}", fs.iter().enumerate().map(|(k, f)| field_src(f, k, false, salt + j)).collect::<Vec<_>>().join(", "), disc),
                 };
                 format!("{}{}{}", attr, v["name"].as_str().unwrap(), body)
             }).collect();
